@@ -133,7 +133,7 @@ class C17(Check):
         "handler was closed, or records were logged after the close; distinct = (lag mode, close position class, length class, text classes)."
     )
     assumptions = [
-        "each navigation call uses a fresh PenlogReader (what hr does)",
+        "each navigation call uses a fresh PenlogReader (what hr does); one of them asks len() while its forward iteration is suspended",
         "timestamps are compared at microsecond resolution; exception records carry the traceback inside the message text (QueueHandler.prepare merges it)",
         "the reader is a pure function of the file: it is evaluated as a history check over the artifacts the simulated runs produced, nothing more is claimed for it",
     ]
@@ -367,6 +367,19 @@ class C17(Check):
                     violation(res, "C17/read", "C17/read:len", f"{cname}: len(reader) = {ln}, {n} records were written")
             except Exception as e:  # noqa: BLE001
                 violation(res, "C17/read", f"C17/read:len:raised:{type(e).__name__}", f"{cname}: len(reader) raised {e!r}")
+            if n >= 2:
+                # a consumer that shows "record i of n": len() is asked while the forward generator is suspended after k records
+                k_mid = rng.randrange(1, n)
+                try:
+                    with glog.PenlogReader(path) as rd:
+                        it_ = rd.records()
+                        got_mid = [next(it_) for _ in range(k_mid)]
+                        ln_mid = len(rd)
+                        got_mid += list(it_)
+                    if compare(got_mid, M, "forward-with-len-midway", cname) and ln_mid != n:
+                        violation(res, "C17/read", "C17/read:len", f"{cname}: len(reader) asked after {k_mid} records = {ln_mid}, {n} records were written")
+                except Exception as e:  # noqa: BLE001
+                    violation(res, "C17/read", f"C17/read:forward-with-len-midway:raised:{type(e).__name__}", f"{cname}: forward read with len() after {k_mid} of {n} records raised {e!r}")
             if plan.get("burst"):
                 bump(res["probes"], "burst_of_records_behind_a_stalled_consumer")
                 break  # completeness of the big file is the point here; navigation is covered by the other plans
